@@ -401,7 +401,7 @@ fn c14_o2_ping_round() {
 }
 
 //@ ob: C06.O3b
-//@ tier: thorough
+//@ tier: off
 //@ cap: 2400
 //@ standins: tracing lru vcoll
 //@ also: C08
@@ -515,7 +515,7 @@ fn expected_counts(kinds: &[Option<u8>; 2]) -> (usize, usize, usize, usize) {
 }
 
 //@ ob: C20.O1
-//@ tier: thorough
+//@ tier: off
 //@ cap: 2700
 //@ mem: 20
 //@ standins: tracing lru vcoll
